@@ -36,6 +36,10 @@ def stage_rule(ctx, run, res, rule, rows_atom, cols_atom, entry_fn):
             problems.append(f"{e['loc']}: autograd.grad differentiates w.r.t. {atoms_of_desc(e['inputs'])}, expected [{cols_atom}]")
         if isinstance(e["outputs"], dict) and isinstance(e["grad_outputs"], dict) and e["outputs"]["order"] != e["grad_outputs"]["order"]:
             problems.append(f"{e['loc']}: outputs are in order {e['outputs']['order']} but their cotangents in order {e['grad_outputs']['order']}")
+    for e in _pipe.evs(res, "len_of_key"):
+        if e["function"].split(".")[-1] in ("backward", "mtl_backward"):
+            problems.append(f"{e['loc']}: `{e['text'][:50]}` takes len() of a tensor the caller passed ({e['origin']}) before it was normalised to a list: a single 0-d tensor (a scalar loss passed "
+                            "directly) makes the call raise TypeError")
     for e in _pipe.evs(res, "dtype_cast"):
         if e.get("to") in ("Default",) or str(e.get("to", "")).startswith("Fixed:"):
             problems.append(f"{e['loc']}: `{e['text'][:70]}` converts a gradient / the Jacobian / the aggregated vector from its own dtype to {e['to']}: in a float64 program the deposited update is "
